@@ -64,6 +64,22 @@ var c03Entries = []entry{
 		return -1, err == nil
 	}},
 	{"ConvertUnknownFields", true, func(b []byte) (int, bool) { _, err := unknownfields.ConvertUnknownFields(b); return -1, err == nil }},
+	{"GetUnknownFields(*struct)", true, func(b []byte) (int, bool) {
+		v := &struct {
+			A              int
+			_unknownFields []byte
+		}{A: 1, _unknownFields: b}
+		_, err := unknownfields.GetUnknownFields(v)
+		return -1, err == nil
+	}},
+	{"GetUnknownFields(struct)", true, func(b []byte) (int, bool) {
+		v := struct {
+			_unknownFields []byte
+			Z              string
+		}{_unknownFields: b}
+		_, err := unknownfields.GetUnknownFields(v)
+		return -1, err == nil
+	}},
 	{"ttheader.DecodeFromBytes", false, func(b []byte) (int, bool) {
 		p, err := ttheader.DecodeFromBytes(context.Background(), b)
 		if err != nil {
@@ -81,6 +97,18 @@ var c03Entries = []entry{
 			return n, true
 		}
 		return n, true
+	}},
+	{"ttheader.Decode(after a preface)", false, func(b []byte) (int, bool) {
+		// the frame is the second thing on a reader that has not been released: lengths are about the frame
+		all := append([]byte{1, 2, 3}, b...)
+		r := bufiox.NewBytesReader(all)
+		r.Next(3)
+		p, err := ttheader.Decode(context.Background(), r)
+		r.Release(nil)
+		if err != nil {
+			return -1, false
+		}
+		return p.HeaderLen, true
 	}},
 	{"BytesSkipDecoder.Next(STRUCT)", false, func(b []byte) (int, bool) {
 		d := thrift.NewBytesSkipDecoder(b)
@@ -427,6 +455,24 @@ func monC03(c *drv.Ctx) {
 		c03Run(cs, append(field, 0), []byte{ref.STRUCT}, allocCap) // as a complete struct
 		cs.Count(true, "large", shape, n)
 		cs.C.Obs("large-container cases", 1)
+	})
+
+	// (4c) the same entry points with the span allocator switched on (after it has been on, off and on again)
+	c.Stage("span-cache-on", c.Pick(4000, 100000), false, func(cs *drv.Case) {
+		thrift.SetSpanCache(true)
+		thrift.SetSpanCache(false)
+		thrift.SetSpanCache(true)
+		defer thrift.SetSpanCache(false)
+		enc, kind := seedEncoding(cs)
+		m := enc
+		mut := "valid"
+		if cs.R.Intn(3) > 0 {
+			m, mut = gen.Mutate(cs.R, enc, nil)
+		}
+		cs.Desc = M{"seed": kind, "mutation": mut, "span_cache": true, "input_hex": hexOf(m)}
+		c03Run(cs, m, someTypes(cs), allocCap)
+		cs.Count(len(m) >= 1, "span", kind, m)
+		cs.C.Obs("span-cache-on cases", 1)
 	})
 
 	// (5) huge declared sizes on the non-allocating entry points
